@@ -169,6 +169,21 @@ func (tp *topo) follow(src *asys, p *rawPath) (end *asys, crossed []crossing, ex
 	return cur, crossed, expiry, nil
 }
 
+// changeAS is the AS in which the path changes from its first to its second segment (coverage probes only).
+func (tp *topo) changeAS(src *asys, p *rawPath) *asys {
+	first := &rawPath{infos: p.infos}
+	for _, h := range p.hops {
+		if h.seg == 0 {
+			first.hops = append(first.hops, h)
+		}
+	}
+	end, _, _, err := tp.follow(src, first)
+	if err != nil {
+		return nil
+	}
+	return end
+}
+
 // ---- per-lookup oracle ----
 
 type failure struct{ check, sig, msg string }
@@ -181,6 +196,7 @@ type lookup struct {
 	err      error
 	rendered []string
 	crossed  []crossing // interfaces of all returned paths, in canonical order (by rendering)
+	kinds    map[string]bool
 }
 
 // judgePaths checks every returned path against the statement: starts at the local AS, ends at the requested
@@ -253,6 +269,19 @@ func (tp *topo) judgePaths(lk *lookup, revs *revModel) (fails []failure) {
 		key := crossingsString(crossed)
 		lk.rendered = append(lk.rendered, fmt.Sprintf("[%s] exp+%v", key, exp.Sub(lk.now)))
 		byKey[key] = crossed
+		if lk.kinds == nil {
+			lk.kinds = map[string]bool{}
+		}
+		lk.kinds[fmt.Sprintf("path-with-%d-segments", len(raw.infos))] = true
+		if raw.infos[0].peer {
+			lk.kinds["path-over-peering-link"] = true
+		}
+		if !raw.infos[0].peer && len(raw.infos) == 2 && err == nil {
+			// a segment change at a non-core AS is a shortcut
+			if x := tp.changeAS(lk.local, raw); x != nil && !x.core {
+				lk.kinds["path-with-shortcut"] = true
+			}
+		}
 		if err != nil {
 			// the path cannot be followed from the local AS through the topology
 			fail("not-from-local", "path does not lead anywhere from the local AS: %v", err)
